@@ -138,6 +138,42 @@ def eval_expect(exp, out):
     if k == 'line_negative':
         v = out['solution'].get(exp['line'])
         return v is not None and Fraction(v) < 0 and (not exp.get('need_solved') or out['solved'] is True)
+    if k == 'instruction':
+        if out['solved'] is not True:
+            return False
+        def g(name, form=None):
+            v = out['solution'].get('%s.%s' % (form or exp['form'], name))
+            try:
+                return Fraction(v) if v not in (None, '') else Fraction(0)
+            except ValueError:
+                return Fraction(0)
+        e = exp['expr']
+        kk = e[0]
+        if kk == 'add':
+            E = sum((g(x) for x in e[1]), Fraction(0))
+        elif kk == 'sub':
+            E = g(e[1]) - g(e[2])
+            if e[3]:
+                E = max(Fraction(0), E)
+        elif kk in ('mul_rate', 'mul_const'):
+            E = Fraction(e[2]) * g(e[1])
+        elif kk == 'min':
+            E = min(g(e[1]), g(e[2]))
+        elif kk == 'max':
+            E = max(g(e[1]), g(e[2]))
+        elif kk == 'min_const':
+            st = out['solution'].get('1040.filing_status')
+            E = min(g(e[1]), Fraction(e[2]['MarriedFilingSeparately'] if st == 'MarriedFilingSeparately' else e[2]['other']))
+        elif kk == 'carry':
+            E = g(e[1])
+        elif kk == 'carry_form':
+            E = g(e[2], e[1])
+        else:
+            return False
+        got = out['solution'].get(exp['line'])
+        if got in (None, ''):
+            return False
+        return abs(Fraction(got) - E) > Fraction(exp.get('tol', '0.0051'))
     if k in ('balance', 'nc_balance'):
         if out['solved'] is not True:
             return False
